@@ -32,6 +32,7 @@ def sig(tree):
 TREES = {
     "matrix": {"w": (4, 3)}, "vector": {"b": (5,)}, "scalar": {"s": ()}, "unit-dims": {"u": (1, 1), "v": (3, 1)},
     "rank3": {"t": (3, 2, 2)}, "mixed": {"w": (6, 4), "b": (4,)},
+    "matrix+scalar": {"w": (4, 3), "s": ()},
 }
 CONFIGS = {
     "default": dict(),
@@ -47,11 +48,13 @@ CONFIGS = {
     "reuse": dict(reuse_preconditioner=True),
     "fd": dict(compression_rank=1, block_size=8, frequent_directions=True, reuse_preconditioner=True),
     "fd-no-reuse": dict(compression_rank=1, block_size=8, frequent_directions=True),
+    "fd-metrics": dict(compression_rank=1, block_size=8, frequent_directions=True, reuse_preconditioner=True, generate_fd_metrics=True,
+                       skip_preconditioning_rank_lt=2),
     "fd-avg-grad": dict(compression_rank=1, block_size=8, frequent_directions=True, reuse_preconditioner=True, average_grad=True,
                         skip_preconditioning_rank_lt=2),
 }
 if tier == "quick":
-  TREES = {k: TREES[k] for k in ("matrix", "vector", "unit-dims", "mixed")}
+  TREES = {k: TREES[k] for k in ("matrix", "vector", "unit-dims", "mixed", "matrix+scalar")}
 
 
 def explanatory(e):
